@@ -45,6 +45,10 @@ class EngineWorld:
     def assume(self, c):
         self.ctx.assume(c)
 
+    def choose(self, v, domain):
+        """concretise a small symbolic int by forking"""
+        return self.ctx.choose(v, domain)
+
     # construction
     def obj(self, cls, **fields):
         if isinstance(cls, str):
@@ -96,6 +100,55 @@ class EngineWorld:
             interp.ctx.emit("cb", name, tuple(a))
             return ret
         return I.Builtin("cb:" + name, fn)
+
+    def snap(self, lst):
+        return lst.snapshot()
+
+    def lookup(self, d, k):
+        """value bound to k in a (possibly opaque) dict, or ABSENT"""
+        if d.base is not None:
+            return self.interp.pdict_lookup(d, k)
+        if V.is_sym(k):
+            raise Unsupported("symbolic key on concrete dict in setup")
+        return d.d.get(k, V.ABSENT)
+
+    def pick(self, lst, name):
+        """a callback that may or may not be a member of lst (concrete worlds: the first element or a new one)"""
+        if lst is not V.ABSENT and lst.base is None and lst.items and self.ctx.fresh_bool(name + ".member"):
+            return lst.items[0]
+        return self.callback(name)
+
+    def new_condition(self):
+        from .libmodels import CondModel
+        return SObj(CondModel, {})
+
+    def new_lock(self):
+        from .libmodels import LockModel
+        return SObj(LockModel, {})
+
+    def plist(self, name, maxn=3, elem=None):
+        """an arbitrary list (history abstraction): unknown prefix in the proof world, 0..maxn concrete
+        elements (callbacks unless `elem(i)` builds something else) in the concrete worlds"""
+        if self.ctx.mode == "sym":
+            return I.SList([], I.PBase(name, self.ctx.fresh_int(name + ".len", 0, 1 << 31)))
+        n = self.ctx.fresh_int(name + ".len", 0, maxn)
+        mk = elem or (lambda i: self.callback("%s[%d]" % (name, i)))
+        return I.SList([mk(i) for i in range(n)])
+
+    def pdict(self, name, near, value, maxn=3):
+        """an arbitrary int-keyed map: opaque in the proof world; in the concrete worlds each key in `near`
+        (plus a few random ones) is present or not by the oracle. value(tag) builds the value for a key."""
+        if self.ctx.mode == "sym":
+            return I.SDict({}, base=name, valfactory=lambda interp, tag: value(tag))
+        d = {}
+        for i, k in enumerate(near):
+            if self.ctx.fresh_bool("%s.has%d" % (name, i)):
+                d[k] = value("%s[%d]" % (name, i))
+        for j in range(self.ctx.fresh_int(name + ".extra", 0, maxn)):
+            k = self.ctx.fresh_int("%s.k%d" % (name, j), 0, 0x7FF)
+            if k not in d:
+                d[k] = value("%s[x%d]" % (name, j))
+        return I.SDict(d)
 
     # running
     def run(self, call):
@@ -159,6 +212,24 @@ class NativeAbort(Exception):
     pass
 
 
+class NativeCond:
+    """native stand-in for threading.Condition recording the same events as the engine model"""
+
+    def __enter__(self):
+        return self
+
+    def __exit__(self, *a):
+        return False
+
+    def notify_all(self):
+        NativeRT.events.append(("notify_all",))
+
+    notify = notify_all
+
+    def wait(self, timeout=None):
+        raise NativeAbort("Condition.wait is modelled only in the proof world")
+
+
 class NativeWorld:
     """Builds real objects; values come from the oracle (all names must be present)."""
     native = True
@@ -197,6 +268,9 @@ class NativeWorld:
     def assume(self, c):
         if not c:
             raise NativeAbort("assumption false")
+
+    def choose(self, v, domain):
+        return v
 
     def obj(self, cls, **fields):
         if isinstance(cls, str):
@@ -242,6 +316,40 @@ class NativeWorld:
             return ret
         return fn
 
+    def snap(self, lst):
+        return list(lst)
+
+    def lookup(self, d, k):
+        return d.get(k, V.ABSENT)
+
+    def pick(self, lst, name):
+        if lst is not V.ABSENT and lst and self.bool(name + ".member"):
+            return lst[0]
+        return self.callback(name)
+
+    def new_condition(self):
+        return NativeCond()
+
+    def new_lock(self):
+        import threading
+        return threading.Lock()
+
+    def plist(self, name, maxn=3, elem=None):
+        n = self.int(name + ".len", 0, maxn)
+        mk = elem or (lambda i: self.callback("%s[%d]" % (name, i)))
+        return [mk(i) for i in range(n)]
+
+    def pdict(self, name, near, value, maxn=3):
+        d = {}
+        for i, k in enumerate(near):
+            if self.bool("%s.has%d" % (name, i)):
+                d[k] = value("%s[%d]" % (name, i))
+        for j in range(self.int(name + ".extra", 0, maxn)):
+            k = self.int("%s.k%d" % (name, j), 0, 0x7FF)
+            if k not in d:
+                d[k] = value("%s[x%d]" % (name, j))
+        return d
+
     def run(self, call):
         t = call.target
         if t[0] == "method":
@@ -267,9 +375,17 @@ class NativeWorld:
         return getattr(obj, name)
 
 
+MSG_FIELDS = ("arbitration_id", "channel", "data", "dlc", "is_error_frame", "is_extended_id", "is_fd",
+              "is_remote_frame", "is_rx", "timestamp")
+
+
 # --------------------------------------------------------------------------------------------
 def normalize(v, depth=3, seen=None):
     """engine value or native value -> comparable JSON-able structure."""
+    if type(v).__name__ == "_UninitializedNetwork":
+        return ["obj", "_UninitializedNetwork"]
+    if v is V.ABSENT:
+        return ["absent"]
     if v is None or isinstance(v, (bool, str)):
         return v
     if isinstance(v, int):
@@ -309,7 +425,21 @@ def normalize(v, depth=3, seen=None):
     if isinstance(v, type):
         return ["class", v.__name__]
     if isinstance(v, RealObj):
+        if type(v.obj).__name__ == "_UninitializedNetwork":
+            return ["obj", "_UninitializedNetwork"]
         return normalize(v.obj, depth)
+    if isinstance(v, SObj) and v.cls.__name__ == "QueueModel":
+        return ["queue"] + [normalize(x, depth - 1) for x in v.fields["items"].items]
+    if type(v).__name__ == "Queue" and type(v).__module__ == "queue":
+        return ["queue"] + [normalize(x, depth - 1) for x in list(v.queue)]
+    if isinstance(v, SObj) and v.cls.__name__ in ("LockModel", "CondModel"):
+        return ["obj", "lock"]
+    if type(v).__name__ in ("lock", "RLock", "NativeCond", "Condition"):
+        return ["obj", "lock"]
+    if type(v).__name__ == "Message" and type(v).__module__.startswith("can"):
+        if depth <= 0:
+            return ["obj", "Message"]
+        return ["obj", "Message", {k: normalize(getattr(v, k), depth - 1) for k in MSG_FIELDS}]
     if isinstance(v, SObj):
         if issubclass(v.cls, BaseException):
             return ["exc", v.cls.__name__] + ([normalize(v.fields.get("code"))] if "code" in v.fields else [])
